@@ -2,8 +2,9 @@
    followed by Print Assumptions. *)
 From Coq Require Import ZArith NArith List Bool String.
 From Falcon.lib Require Import PyStr.
-From Falcon.C15 Require Import Model Spec Proofs.
+From Falcon.C15 Require Import Model Spec Proofs ProofsBridge.
 Import ListNotations.
+(* the proved model of falcon/util/uri.py (C10): M10 = Falcon.C10.Model, S10 = Falcon.C10.Spec *)
 
 (* ---- reading back = a case-insensitive map, for every history and every casing *)
 Theorem C15_headers_refine_map : forall f sd ops n,
@@ -145,21 +146,87 @@ Theorem C15_unset_cookie_expired_refuted_before_fix :
 Proof. exact unset_cookie_expired_refuted_before_fix. Qed.
 Print Assumptions C15_unset_cookie_expired_refuted_before_fix.
 
-(* ---- URI-bearing helpers: pure ASCII, decoding back to the original.
-   Full statement: utf8_decode (pct_decode out) = s.  Proved at the octet level
-   (pct_decode out = utf8 s); that bytes.decode('utf-8') inverts str.encode() is the stdlib's
-   contract (not modelled), hence _partial.  [taken_as_escaped] is the documented exception of
-   encode_check_escaped (strings that already look percent-encoded are left alone). *)
+(* ---- emission order of the jar cookies (set_cookie drops an existing Morsel first: a cookie
+   that is set again moves to the end of the Set-Cookie block; unset_cookie keeps its place) *)
+Theorem C15_emitted_cookie_order : forall f sd s o s' l,
+  (exists mt, o = EmitW mt) \/ (exists mt, o = EmitA mt) ->
+  step f sd s o = (s', OItems l) -> cookie_keys l = map fst (cookies s).
+Proof. exact emitted_cookie_order. Qed.
+Print Assumptions C15_emitted_cookie_order.
+
+Theorem C15_set_cookie_order : forall sd c a c' e,
+  set_cookie true sd c a = (c', e) ->
+  map fst c' = order_after_set (map fst c) (ca_name a) \/
+  (e <> None /\ map fst c' = filter (fun k => negb (str_eqb (ca_name a) k)) (map fst c)) \/
+  (e <> None /\ c' = c).
+Proof. exact set_cookie_order. Qed.
+Print Assumptions C15_set_cookie_order.
+
+Theorem C15_unset_cookie_order : forall f c n ss d p c',
+  unset_cookie f c n ss d p = (c', None) -> map fst c' = order_after_unset (map fst c) n.
+Proof. exact unset_cookie_order. Qed.
+Print Assumptions C15_unset_cookie_order.
+
+Theorem C15_cookie_order_oracle_sound : forall sd f c a n ss d p c',
+  (set_cookie true sd c a = (c', None) -> cookie_order_ok 0 (map fst c) (ca_name a) (map fst c') = true) /\
+  (unset_cookie f c n ss d p = (c', None) -> cookie_order_ok 1 (map fst c) n (map fst c') = true).
+Proof. exact cookie_order_oracle_sound. Qed.
+Print Assumptions C15_cookie_order_oracle_sound.
+
+(* ---- URI-bearing helpers: pure ASCII, decoding back to the original with falcon's own
+   uri.decode (C10's proved model of it: all three paths = the RFC 3986 reference decoder + UTF-8
+   from coq/lib/Utf8.v).  [taken_as_escaped] is the documented exception of encode_check_escaped
+   (strings that already look percent-encoded are left alone: resp.location = '/a%41' is emitted
+   as is and decodes to '/aA'); it stays an explicit hypothesis. *)
 Theorem C15_uri_setters_ascii : forall v chk s out,
   uri_encoder v chk s = Ok out -> is_ascii out = true.
 Proof. exact uri_encoder_ascii. Qed.
 Print Assumptions C15_uri_setters_ascii.
 
-Theorem C15_uri_setters_decode_back_partial : forall v chk s out,
+(* [plus] = unquote_plus; it may be true only for the value encoders ('+' is a legal URI character
+   that uri_encode keeps) *)
+Theorem C15_uri_setters_decode_back : forall v chk s out plus,
+  (plus = true -> v = true) ->
+  taken_as_escaped v chk s = false ->
+  uri_encoder v chk s = Ok out -> M10.decode out plus = M10.Ok s.
+Proof. exact uri_encoder_decodes. Qed.
+Print Assumptions C15_uri_setters_decode_back.
+
+(* decode (location_value s) = s *)
+Theorem C15_location_decodes_back : forall f s out,
+  taken_as_escaped false true s = false ->
+  (transform f P_location (PS s) = Ok out \/ transform f P_content_location (PS s) = Ok out) ->
+  M10.decode out false = M10.Ok s.
+Proof. exact location_decodes_back. Qed.
+Print Assumptions C15_location_decodes_back.
+
+(* the octet-level form the oracle checks, and what it certifies about an observation *)
+Theorem C15_uri_setters_octets : forall v chk s out,
   taken_as_escaped v chk s = false ->
   uri_encoder v chk s = Ok out -> Some (pct_decode out) = utf8 s.
 Proof. exact uri_encoder_decode_back. Qed.
-Print Assumptions C15_uri_setters_decode_back_partial.
+Print Assumptions C15_uri_setters_octets.
+
+Theorem C15_uri_oracle_implies_decode : forall v chk s out,
+  uri_out_ok v chk s out = true -> taken_as_escaped v chk s = false ->
+  M10.decode out false = M10.Ok s.
+Proof. exact uri_oracle_implies_decode. Qed.
+Print Assumptions C15_uri_oracle_implies_decode.
+
+(* the local copy of uri._create_str_encoder is C10's model of it; the local str.encode() is the
+   UTF-8 library's; the oracle's octet decoder is C10's reference decoder *)
+Theorem C15_uri_encoder_is_C10 : forall v chk s, to10 (uri_encoder v chk s) = M10.encoder v chk s.
+Proof. exact uri_encoder_is_C10. Qed.
+Print Assumptions C15_uri_encoder_is_C10.
+
+Theorem C15_utf8_is_lib : forall s,
+  utf8 s = if forallb Falcon.lib.Utf8.scalar s then Some (Falcon.lib.Utf8.encode s) else None.
+Proof. exact utf8_lib. Qed.
+Print Assumptions C15_utf8_is_lib.
+
+Theorem C15_pct_decode_is_reference : forall s, pct_decode s = S10.ref_bytes false s.
+Proof. exact pct_decode_is_reference. Qed.
+Print Assumptions C15_pct_decode_is_reference.
 
 Theorem C15_location_is_uri_encode : forall f s,
   transform f P_location (PS s) = uri_encode s /\
@@ -177,12 +244,12 @@ Theorem C15_link_value_ascii : forall a out,
 Proof. exact link_value_ascii. Qed.
 Print Assumptions C15_link_value_ascii.
 
-Theorem C15_link_target_decode_back_partial : forall a out,
+Theorem C15_link_target_decode_back : forall a out,
   taken_as_escaped false true (l_target a) = false -> link_value a = Ok out ->
   exists t rest, out = 60 :: t ++ rest /\ startswith rest s_rel = true /\
-                 Some (pct_decode t) = utf8 (l_target a).
-Proof. exact link_target_decode_back. Qed.
-Print Assumptions C15_link_target_decode_back_partial.
+                 is_ascii t = true /\ M10.decode t false = M10.Ok (l_target a).
+Proof. exact link_target_decodes. Qed.
+Print Assumptions C15_link_target_decode_back.
 
 (* ---- download filenames *)
 Theorem C15_content_disposition_ascii : forall f nfkd dt v out,
@@ -197,12 +264,16 @@ Theorem C15_content_disposition_ascii_roundtrip : forall nfkd dt v,
 Proof. exact content_disposition_ascii_roundtrip. Qed.
 Print Assumptions C15_content_disposition_ascii_roundtrip.
 
-Theorem C15_content_disposition_ext_value_partial : forall nfkd dt v out,
+(* RFC 5987 / 8187: filename*=UTF-8''value-chars; the value is attr-char / upper-case
+   pct-encoded only and decodes (percent-decoding + UTF-8) to the filename that was assigned *)
+Theorem C15_content_disposition_ext_value : forall nfkd dt v out plus,
   is_ascii v = false -> format_content_disposition true nfkd dt v = Ok out ->
   exists sf ev, out = dt ++ s_filename_q ++ sf ++ s_filename_star ++ ev /\
-                is_ascii sf = true /\ is_ascii ev = true /\ Some (pct_decode ev) = utf8 v.
-Proof. exact content_disposition_ext_value. Qed.
-Print Assumptions C15_content_disposition_ext_value_partial.
+                is_ascii sf = true /\ is_ascii ev = true /\
+                S10.escaped_ok true (S10.rfc_allowed true) ev = true /\
+                M10.decode ev plus = M10.Ok v.
+Proof. exact content_disposition_ext_value_decodes. Qed.
+Print Assumptions C15_content_disposition_ext_value.
 
 Theorem C15_content_disposition_roundtrip_refuted_before_fix :
   exists nfkd dt v q, is_ascii v = true /\
@@ -211,11 +282,21 @@ Theorem C15_content_disposition_roundtrip_refuted_before_fix :
 Proof. exact content_disposition_roundtrip_refuted_before_fix. Qed.
 Print Assumptions C15_content_disposition_roundtrip_refuted_before_fix.
 
-Theorem C15_cd_oracle_sound_ascii_partial : forall nfkd dt v out,
-  is_ascii dt = true -> is_ascii v = true ->
+(* the oracle accepts the model on both branches ([nfkd v <> []]: NFKD of a non-empty string is
+   non-empty - the contract of the oracle input) ... *)
+Theorem C15_cd_oracle_sound : forall nfkd dt v out,
+  is_ascii dt = true -> (is_ascii v = false -> nfkd v <> []) ->
   format_content_disposition true nfkd dt v = Ok out -> cd_out_ok dt v out = true.
-Proof. exact cd_oracle_sound_ascii_partial. Qed.
-Print Assumptions C15_cd_oracle_sound_ascii_partial.
+Proof. exact cd_oracle_sound. Qed.
+Print Assumptions C15_cd_oracle_sound.
+
+(* ... and what it certifies about an observed header: the ext-value decodes to the filename *)
+Theorem C15_cd_oracle_implies_decode : forall dt v out,
+  is_ascii v = false -> cd_out_ok dt v out = true ->
+  exists tok ev, out = dt ++ s_filename_q ++ tok ++ s_filename_star ++ ev /\
+                 M10.decode ev false = M10.Ok v.
+Proof. exact cd_oracle_implies_decode. Qed.
+Print Assumptions C15_cd_oracle_implies_decode.
 
 (* ---- non-vacuity: a concrete history that exercises the three stores *)
 Example C15_history_nontrivial :
@@ -238,5 +319,19 @@ Proof. vm_compute. repeat split; reflexivity. Qed.
 Example C15_decode_back_nontrivial :
   taken_as_escaped false true [233; 32; 37] = false /\
   uri_encode [233; 32; 37] = Ok (lit "%C3%A9%20%25") /\
-  taken_as_escaped false true (lit "/a%41") = true.
+  M10.decode (lit "%C3%A9%20%25") false = M10.Ok [233; 32; 37] /\
+  taken_as_escaped false true (lit "/a%41") = true /\
+  M10.decode (lit "/a%41") false = M10.Ok (lit "/aA").
+Proof. vm_compute. repeat split; reflexivity. Qed.
+
+(* a non-ASCII download name: e-acute, euro sign, an astral character, a double quote and ".txt";
+   the fallback token, the ext-value, and its decoding *)
+Example C15_ext_value_nontrivial :
+  let v := [233; 8364; 128512; 34; 46; 116; 120; 116]%N in
+  let nf := [101; 769; 8364; 128512; 34; 46; 116; 120; 116]%N in
+  format_content_disposition true (fun _ => nf) s_attachment v =
+    Ok (lit "attachment; filename=e____.txt; filename*=UTF-8''%C3%A9%E2%82%AC%F0%9F%98%80%22.txt") /\
+  M10.decode (lit "%C3%A9%E2%82%AC%F0%9F%98%80%22.txt") false = M10.Ok v /\
+  cd_out_ok s_attachment v
+    (lit "attachment; filename=e____.txt; filename*=UTF-8''%C3%A9%E2%82%AC%F0%9F%98%80%22.txt") = true.
 Proof. vm_compute. repeat split; reflexivity. Qed.
